@@ -8,7 +8,7 @@ verus! {
 //@include prelude/core.rs
 //@include prelude/stream.rs
 use pre::*;
-pub mod http_body { pub use crate::pre::SizeHint; }
+pub mod http_body { pub use crate::pre::SizeHint; pub use crate::pre::Frame; }
 broadcast use {ax::dflt_u64, ax::dflt_vec_u8, pre::data_axioms};
 
 // ----------------------------------------------------------------------------------------------
@@ -209,7 +209,33 @@ impl<D: DataT, E: FromBoxError> BodyStream<D, E> {
     //@end
 }
 
+/// `poll_frame` result with the `Frame::data` wrapper removed.
+spec fn unframe<D, E>(r: Poll<Option<Result<Frame<D>, E>>>) -> Poll<Option<Result<D, E>>> {
+    match r {
+        Poll::Ready(Some(Ok(f))) => Poll::Ready(Some(Ok(f.data))),
+        Poll::Ready(Some(Err(e))) => Poll::Ready(Some(Err(e))),
+        Poll::Ready(None) => Poll::Ready(None),
+        Poll::Pending => Poll::Pending,
+    }
+}
+
 impl<D: DataT, E: FromBoxError> Body<D, E> {
+    //@fn src/body.rs :: impl Body for Body :: fn poll_frame props=C01,C07,C12,C20 implicit=C13,C20 rules=R1,R33
+    fn poll_frame(&mut self, cx: &mut Context) -> (r: Poll<Option<Result<Frame<D>, E>>>)
+        requires old(self).0.wf(),
+        ensures
+            /*@C01,C07,C12,C20 #frame_wf*/ final(self).0.wf(),
+            /*@C01,C12,C20 #frame_once*/ old(self).0 matches BodyStream::Once(c) ==> unframe(r) == Poll::Ready(c) && final(self).0 == BodyStream::<D, E>::Once(None),
+            /*@C01,C02,C07,C12,C20 #frame_exact*/ old(self).0 matches BodyStream::ExactLen(s0) ==> (final(self).0 matches BodyStream::ExactLen(s1)
+                && exact_rel(s0.remaining, s0.stream.next_item(), unframe(r), s1.remaining) && s1.stream == s0.stream.after()),
+            /*@C01,C06,C07,C12,C20 #frame_multipart*/ old(self).0 matches BodyStream::Multipart(s0) ==> (final(self).0 matches BodyStream::Multipart(s1)
+                && acct_rel(s0.remaining, unframe(r), s1.remaining)
+                && ((unframe(r) matches Poll::Ready(Some(Err(_))) || unframe(r) matches Poll::Ready(None)) ==> s1.terminal())
+                && (s0.terminal() ==> unframe(r) matches Poll::Ready(None))),
+            /*@C08,C11,C12,C20 #frame_chunker*/ old(self).0 matches BodyStream::Chunker(c0) ==> (final(self).0 matches BodyStream::Chunker(c1) && c0.poll_rel(unframe(r), c1)),
+    //@body
+    //@end
+
     //@fn src/body.rs :: impl Body for Body :: fn size_hint props=C01,C12
     fn size_hint(&self) -> (r: SizeHint)
         ensures
